@@ -35,6 +35,11 @@ func runC14(c *Ctx) {
 	c.Rule("R14e", "a deferred closure that reports the restore error assigns it to a named result of the enclosing function (otherwise the error is lost)", 4)
 
 	c.Rule("R14g", "sqlite restore: inside the closure returned by Snapshot every nil return is preceded by the loop that executes the clean-up statements (no shortcut that decides 'nothing to clean' from a partial view of the database)", 1)
+	c.Rule("R14i", "the context the deferred restore runs with is not one the same function bounded by a deadline (context.WithTimeout/WithDeadline assigned to that variable): the restore runs after all the work, so a deadline meant for an earlier step would expire it and leave the dev database dirty", 4)
+	c.Rule("R14j", "no context bounded by a deadline in a function of the command layer (assigned from context.WithTimeout/WithDeadline there) is handed to a call that can reach Snapshot through statically resolved module code: the restore deferred behind that Snapshot would run with the same, by then possibly expired, context (zero bounded contexts is a pass: the obligation list enumerates every bounded context found)", 0)
+	checkBoundedCtxFlow(c, "R14j")
+	c.Rule("R14h", ruleTextRowsClosed, 3)
+	checkRowsClosed(c, "R14h")
 	checkRestoreAllPaths(c)
 	c.Rule("R14f", "sqlite Snapshot: every object kind the restore closure deletes from sqlite_master (type IN (…)) is consulted by the cleanliness test (a Schema collection read before the closure is returned); index and trigger are implied by their table/view", 2)
 	checkSnapshotKinds(c)
@@ -250,6 +255,9 @@ func runC14(c *Ctx) {
 				} else {
 					c.Check("R14e", fi.Name+"|restore error reported", deferred.Pos(), false, "`defer restore(ctx)` discards the restore error")
 				}
+			}
+			if deferred != nil {
+				checkRestoreCtx(c, fi, deferred)
 			}
 		}
 	})
